@@ -57,11 +57,13 @@ func (w *World) can(tr string) bool {
 	}
 	var r *remote
 	switch f[0] {
-	case "adv", "advms", "tick", "utick", "want", "creq", "setconf":
+	case "adv", "advms", "tick", "utick", "want", "creq", "setconf", "treq":
 		return true
+	case "evictone":
+		return w.t.Pieces.Count() > 0
 	case "cdel":
 		return w.consumers[fmt.Sprintf("%d/%d", ai(1), ai(2))] > 0
-	case "complete", "fail":
+	case "complete", "fail", "dupcomplete", "dupfail":
 		return !w.t.Pieces.Complete(uint32(ai(1)))
 	case "ropen":
 		return len(w.readers) < 2
